@@ -3,7 +3,7 @@
 #  1. confirm in the worktree: with the change the project builds, the 17 tests pass and the demonstration fails; without it the demonstration passes;
 #  2. apply the change to /repo, run the given checks (default: the property's own), restore /repo.
 set -u
-P=$1; WT=$2; shift 2; CHECKS=${@:-$P}
+P=$1; WT=$2; shift 2; PROP=${P%[a-z]}; CHECKS=${@:-$PROP}
 D=/verif/seeded/$P; mkdir -p $D
 cp $WT/SEEDED/patch.diff $WT/SEEDED/demo.cpp $WT/SEEDED/build_demo.sh $D/ 2>/dev/null
 cp $WT/SEEDED/meta.json $D/agent_meta.json 2>/dev/null
@@ -31,7 +31,7 @@ import json
 am = {}
 try: am = json.load(open('$D/agent_meta.json'))
 except Exception: pass
-m = {'property': '$P', 'what_changed': am.get('what_changed'), 'needs_to_manifest': am.get('needs_to_manifest'),
+m = {'property': '$PROP', 'what_changed': am.get('what_changed'), 'needs_to_manifest': am.get('needs_to_manifest'),
      'confirmed_in_scratch_worktree': {'builds': $BUILD == 0, 'tests_pass': $CTEST == 0, 'demo_exit_unchanged': $RC_CLEAN, 'demo_exit_changed': $RC_MUT},
      'ran': 'tools/seed_eval.sh $P <worktree> $CHECKS  (git apply in /repo; bin/vcheck <check> --no-fidelity; git checkout -- .)',
      'checks': json.loads('[' + '''$RESULTS'''.rstrip(',') + ']')}
